@@ -59,6 +59,9 @@ def gen_model(r, *, budget=6000, max_T=4, force=None):
         n_ds = max(n_ds, 1)
     if "cont2" in force:
         n_cc = 2
+    if "nocc" in force:
+        n_cc = 0
+        n_dc = max(n_dc, 1)
     if force & {"f1", "mixed", "filter", "sdaux"}:
         n_ds = max(n_ds, 1)
     if "mixed" in force:
